@@ -13,10 +13,11 @@ Transcription (import-free, executable) of
   concerned: `applyEntry`, `applyBatch`, `applyLogEntries`;
 * the version part of `__tryLogCompaction` / `__loadDumpFile` (`:1367-1382`, `:1384-1415`): `takeDump`, `loadDump`.
 
-The model is of the REPAIRED code (`/verif/fixes/D10-*.diff`, `D11-*.diff`, `D21-*.diff`):
+The model is of the REPAIRED code (`/verif/fixes/D10-*.diff`, `D11-*.diff`, `D21-*.diff`, `D22-*.diff`):
  D10: an unsupported VERSION entry stops the batch and keeps its subscribers;
  D11: after a dump is loaded the name table is rebuilt for the restored enabled version;
- D21: a node whose enabled version (restored from a dump) exceeds its own code version applies nothing.
+ D21: a node whose enabled version (restored from a dump) exceeds its own code version applies nothing;
+ D22: with a user serializer the enabled version is stored next to the internal dump data and restored.
 
 Names are lists of Unicode code points (`List Nat`) ordered like Python `str`; versions are `Nat`
 (`ver=` is passed through `int()`; negative versions are outside the property and outside the model).
@@ -245,7 +246,9 @@ def setCodeVersion (n : Node) (v : Nat) : SetVer :=
 /-! ## Dump and load -/
 
 structure Dump where
-  /-- `_SyncObj__enabledCodeVersion` inside the pickled object state; `none` with a user serializer -/
+  /-- the enabled code version carried by the dump: inside the pickled object state (default serializer) or
+  as fifth element of the internal data (user serializer, repair D22); `none` = a user-serializer dump
+  written before that repair (four elements) -/
   enabled : Option Nat
   /-- `data[2]` -/
   prev : Entry
@@ -254,9 +257,9 @@ structure Dump where
 deriving DecidableEq, Repr, Inhabited
 
 /-- The version-relevant part of `__tryLogCompaction` once it decides to serialize. -/
-def takeDump (n : Node) (userSerializer : Bool) : Option Dump :=
+def takeDump (n : Node) : Option Dump :=
   match getEntries n.log (n.lastApplied - 1) 2 with
-  | [p, l] => some { enabled := if userSerializer then none else some n.enabled, prev := p, last := l }
+  | [p, l] => some { enabled := some n.enabled, prev := p, last := l }
   | _ => none
 
 /-- `__loadDumpFile(clearJournal)` (repaired: name table for the restored version). -/
